@@ -1,7 +1,9 @@
 """C12 - idle HTTP connections time out after the configured tymeout of virtual time; busy or persistent ones do not.
 
 MC:   specs/http/Idle.tla: ClosedOnlyIfIdle, IdleGetsClosed, TrafficKeepsOpen, PersistentStays for every timing of client
-      activity (nothing / bytes of an unfinished request / a complete persistent request) over MaxTyme ticks, T in {1,2,3}.
+      activity (nothing / bytes of an unfinished request / a complete persistent request / a non persistent request answered
+      by a streaming application) over MaxTyme ticks, T in {1,2,3}, with at most one Server.wind() onto a Tymist whose tyme
+      base is earlier or later.
 S->C: every behaviour of the model is executed on a real http.Server (WSGI, plain and TLS servant) and http.BareServer
       driven by a Tymist's virtual tyme over scripted sockets, one service() per tick; the tick at which the peer's
       socket is closed must be the model's, at three time scales.
@@ -59,9 +61,16 @@ class Rig:
         self.f = fakesock.FakeConn(tls=tls)
         self.listen.pending.append(self.f)
         self.nbytes = 0
+        self.ticks = 0
 
     def tick(self, ev):
         ev, arg = ev[0], (ev[1] if len(ev) > 1 else None)
+        if ev == "wind":
+            # the server is wound onto another Tymist whose tyme is (services so far + base) ticks
+            from hio.base import tyming
+            self.tymist = tyming.Tymist(tyme=(self.ticks + int(arg)) * self.q)
+            # (BareServer has no wind() of its own: its tcp server is wound, as a ServerDoer would do)
+            (self.srv.wind if hasattr(self.srv, "wind") else self.srv.servant.wind)(self.tymist.tymen())
         if not self.f.closed:
             if ev == "reqclose":
                 PATTERN[0] = list(arg or [])
@@ -77,6 +86,7 @@ class Rig:
         self.srv.service()
         st = "closed" if self.f.closed else "open"
         self.tymist.tick(tock=self.q)
+        self.ticks += 1
         return st
 
     def finish(self, close=False):
@@ -120,10 +130,10 @@ def run(ctx):
     scales = [1.0, 0.25, 3.0]
     gen = {"MCIdle.tla": open(core.SPECS + "/http/MCIdle.tla").read()}
     for T in (1, 2, 3):
-        r = ctx.tlc("http", "MCIdle", core.cfg_text(constants={"T": T, "MaxTyme": maxt + 2, "Pats": "<-MCPats"}, properties=props), gen=gen)
+        r = ctx.tlc("http", "MCIdle", core.cfg_text(constants={"T": T, "MaxTyme": maxt + 2, "Pats": "<-MCPats", "Bases": "<-MCBases"}, properties=props), gen=gen)
         for v in r.violated:
             ctx.violation("the model violates %s" % v, {"tlc": r.out[-4000:]})
-        hs = ctx.tlc("http", "MCIdle", core.cfg_text(constants={"T": T, "MaxTyme": maxt, "Pats": "<-MCPats"}, constraints=["Dump"]),
+        hs = ctx.tlc("http", "MCIdle", core.cfg_text(constants={"T": T, "MaxTyme": maxt, "Pats": "<-MCPats", "Bases": "<-MCBases"}, constraints=["Dump"]),
                      workers=1, gen=gen).tagged_json("BH")
         if len(hs) < 20:
             raise core.MachineryError("behaviour dump too small: %d" % len(hs))
